@@ -3,7 +3,7 @@
 set -e
 cd /verif/ocaml/gen
 rm -f *.ml *.mli *.cm* *.o
-coqc -Q /verif/coq/gen WV -Q /verif/coq/model WV -Q /verif/coq/spec WV -o /verif/ocaml/gen/Extract.vo /verif/coq/extract/Extract.v > /dev/null
+coqc -Q /verif/coq/gen WV -Q /verif/coq/model WV -Q /verif/coq/spec WV -Q /verif/coq/proofs WV -o /verif/ocaml/gen/Extract.vo /verif/coq/extract/Extract.v > /dev/null
 cd /verif/ocaml
 rm -rf _obuild && mkdir _obuild && cp gen/*.ml gen/*.mli model_run.ml _obuild/
 cd _obuild
